@@ -141,6 +141,15 @@ Definition gate_of (s : st) (r : route) : N :=
   | None => getd (r_if r) (gatecnt s)
   end.
 
+(* _create_update_module followed by _create_module_links for gate g of <iface>Routes *)
+Definition create_and_link (b : bess) (i g mac : N) : bess :=
+  let un := MUpdI i mac in                                  (* name built from the INTERFACE name *)
+  let b2 := match create_upd b un mac with Created b' => b' | EExist => b end in   (* EEXIST is logged and swallowed *)
+  match connect b2 (MRoutes i) g un 0 with                  (* _create_module_links: the first failure returns *)
+  | None => b2
+  | Some b' => match connect b' un 0 (MMerge i) 0 with None => b' | Some b'' => b'' end
+  end.
+
 (* _add_neighbor(route_entry, next_hop_mac) *)
 Definition add_neighbor (s : st) (r : route) (mac : N) : st :=
   let i := r_if r in
@@ -149,14 +158,9 @@ Definition add_neighbor (s : st) (r : route) (mac : N) : st :=
   let b1 := lpm_add (bs s) i (r_pfx r) g in                 (* add_route_to_module: cannot fail on an existing IPLookup *)
   match lookup nh (ncache s) with
   | None =>                                                 (* "Neighbor entry does not exist, creating modules." *)
-    let un := MUpdI i mac in                                (* name built from the INTERFACE name *)
-    let b2 := match create_upd b1 un mac with Created b' => b' | EExist => b1 end in   (* EEXIST is logged and swallowed *)
-    let b3 := match connect b2 (MRoutes i) g un 0 with      (* _create_module_links: first failure returns *)
-              | None => b2
-              | Some b' => match connect b' un 0 (MMerge i) 0 with None => b' | Some b'' => b'' end
-              end in
     St (cfg_ifs s) (upsert nh (Neigh g mac 1) (ncache s)) (unres s)
-       (upsert i (getd i (gatecnt s) + 1) (gatecnt s)) (kneigh s) (kern s) (nhif s) b3 (pings s)
+       (upsert i (getd i (gatecnt s) + 1) (gatecnt s)) (kneigh s) (kern s) (nhif s)
+       (create_and_link b1 i g mac) (pings s)
   | Some e =>                                               (* "Neighbor already exists" *)
     St (cfg_ifs s) (upsert nh (Neigh (n_gate e) (n_mac e) (n_count e + 1)) (ncache s)) (unres s)
        (gatecnt s) (kneigh s) (kern s) (nhif s) b1 (pings s)
